@@ -31,10 +31,10 @@ CHECKS = {
          "Trusted: strict parsers written from MS-RDPBCGR / T.124 / T.125 (pinned by the repository's own captured vectors). NTLM/CredSSP tokens are covered by C15's verifier (same strict layout rules).", "DESIGN §6 C04"),
  "C05": ("fault_enumeration", "fault injection over reference-server conversations with field maps: exhaustive per-field value sweeps, truncations, extensions, double faults, all short byte strings at parser entries; oracle = Ok/Err, no panic/spin/allocation blow-up",
          "Every scalar field of every setup message (connection confirm, connect-response with GCC blocks, attach-user / channel-join confirms, licence) is set to every 8-bit value or the 16/32-bit boundary values; every truncation point; generated xor corruption and fault pairs over generated server profiles; every byte string of length <= 2 (3 thorough) at gcc / licence / PER entries and as the confirm payload.",
-         "Trusted: panic hook + counting allocator + EOF-read counter in the scripted transports. Allocation bounds: single <= 1 MiB + 64 n, total <= 16 MiB + 4096 n.", "DESIGN §6 C05"),
+         "Trusted: panic hook + counting allocator + EOF-read counter in the scripted transports. Allocation bounds: single <= 1 MiB + 64 n, total <= 16 MiB + 4096 n (also over the whole of mcs.connect + sec.connect). A call that does not return (the per-case watchdog ends the run) is re-executed alone in a fresh process: still burning CPU after 240 s it is reported as hang:call-does-not-return, otherwise the run stays inconclusive (exit 2).", "DESIGN §6 C05"),
  "C06": ("fault_enumeration", "fault injection in every activation state: exhaustive per-field value sweeps of every server PDU kind, truncations, extensions, double faults, free payloads, all short byte strings at the share-PDU / fast-path parser entries",
          "The client is driven into each of its six states by a conforming prefix, reads one hostile frame (every field of demand-active incl. capability sets, deactivate-all, synchronize, control, font map, set-error-info, unknown data PDU, fast-path bitmap/pointer/sync/unknown updates set to every 8-bit / boundary value; truncations; generated corruption) and then one valid frame. Only Ok/Err are acceptable.",
-         "Trusted: as C05.", "DESIGN §6 C06"),
+         "Trusted: as C05 (allocation bounds, hang confirmation).", "DESIGN §6 C06"),
  "C10": ("exploration", "property-based testing: generated fast-path streams against a reference description (differential on the sequence of callbacks)",
          "Generated sequences of fast-path PDUs (0..6 updates each, bitmap updates with 0..5 rectangles, compression header present or not, data up to the 15-bit limit, both length forms, pointer / synchronize / unsupported updates interleaved) on an activated session; the callback sequence must equal the transmitted rectangles element for element.",
          "Trusted: refimpl fast-path builder. Domain: uncompressed, unfragmented updates (as the property states).", "DESIGN §6 C10"),
